@@ -24,7 +24,8 @@ SHARDS = {"quick": 8, "thorough": 16}
 RULE = ("seeded lists of 1-3 documents (every dtype, floats needing 17 digits, ints > 2**64, text with quotes / "
         "newlines / non-ASCII, repeated values, falsy attributes) x serialisations {xml, nt, json-ld, turtle, n3} x "
         "sub-classing {on, off, custom map} x entry points {get_rdf_str->from_string, write_file->from_file, "
-        "odml.save->ODMLReader('RDF').from_file / odml.load}; PYTHONHASHSEED differs per worker; non-trivial = "
+        "odml.save->ODMLReader('RDF').from_file / odml.load}; one RDFWriter / ODMLWriter instance used for two serialisations and again after an edit with a "
+        "removal; PYTHONHASHSEED differs per worker; non-trivial = "
         "document set with at least one Property holding values; distinct = hash of the specs without ids")
 ASSUMPTIONS = ["the uncertainty and the document version are free text in the RDF form and compared by their text",
                "sibling order is not compared (name-keyed maps)",
